@@ -39,6 +39,8 @@ def check(pid, tier):
                 cases.append({"po": po, "ci": {"time": "t", "grid": po["grid"] if po["grid"] != "none" else "g",
                                                  "units": cu, "mask": "flex", "foo": "absent"},
                               "c2": C[0], "via": "sumtime", "two": False})
+    from .meta_run import share_cases
+    cases += share_cases()                 # one mask array object shared by producer and consumer
     traces = run_cases(*RUNNER, cases)
     herr = [t for t in traces if "harness_error" in t]
     if herr:
